@@ -296,3 +296,48 @@ def spec_c16(tier, seed):
         stubs=['S1', 'S2', 'S3', 'S6', 'S7 SimTransport (connect() suspends on demand)', 'S8'],
         technique_extra='; E2: AST->SMT translation with exact integer encoding of IEEE-754 binary64 RNE (z3), translator validated against the real function on 124 vectors per run',
     )
+
+
+def spec_c14(tier, seed):
+    q = tier == 'quick'
+    rot = [[0, 1, 2, 3], [3, 0, 1, 2], [2, 3, 0, 1], [1, 2, 3, 0]]
+    parts = []
+    for nb in (0, 1, 2, 3):
+        for na in (0, 1, 2):
+            for qs in (0, 1, 2):
+                for second in (False, True):
+                    for frag in (False, True):
+                        for ri, kinds in enumerate(rot):
+                            p = {'nb': nb, 'na': na, 'qsize': qs, 'second': second, 'frag': frag, 'kinds': kinds}
+                            if q:
+                                # quick: one rotation per combination, fragmentation only with the unbounded queue
+                                if ri != (nb + na + qs) % 4 or (frag and qs != 0) or (nb == 3 and na == 2):
+                                    continue
+                            parts.append(p)
+    return dict(
+        conds=[
+            E2_MS,
+            Cond('c14_lease', 'c_requester', parts=parts, timeout=300),
+            Cond('c14_lease', 'c_responder', timeout=300),
+        ],
+        explanation='a real lease-honouring RSocketClient on the virtual-time loop: NB requests before the first LEASE, '
+                    'LEASE(count, ttl) with 31-bit symbolic count and ttl, symbolic time advance, NA more requests, optional '
+                    'second LEASE, more time, one more request; wire monitor with virtual timestamps (nothing before the first '
+                    'lease, <= count per lease, none at/after arrival+ttl, FIFO release up to the queue size, each request at most '
+                    'once). Responder: every published DefinedLease(count, ttl) yields one LEASE frame with that count and ttl in '
+                    'ms (ms arithmetic by E2 over the full range).',
+        bounds=['requests before the lease 0..3, after 0..2 (+1 after a second lease); queue size 0 (unbounded), 1, 2; with/without fragmentation; 4 rotations of the 4 request types',
+                'lease count, second count: 0..2^31-1; ttl 0..2^31-1 ms; each time advance 0..10^12 us (11.5 days), all symbolic',
+                '%d partitions' % len(parts)],
+        outside=['more than two leases, more than 6 requests; time advances beyond 23 days (keep-alive machinery of the client would interfere)'],
+        functions=['rsocket.rsocket_base.RSocketBase.send_request', 'rsocket.rsocket_base.RSocketBase._is_frame_allowed_to_send',
+                   'rsocket.rsocket_base.RSocketBase._queue_request_frame', 'rsocket.rsocket_base.RSocketBase.handle_lease',
+                   'rsocket.lease.DefinedLease._is_request_allowed', 'rsocket.lease.DefinedLease.to_frame',
+                   'rsocket.rsocket_base.RSocketBase.request_response', 'rsocket.rsocket_base.RSocketBase.request_stream',
+                   'rsocket.rsocket_base.RSocketBase.request_channel', 'rsocket.rsocket_base.RSocketBase.fire_and_forget',
+                   'rsocket.rsocket_base.RSocketBase._subscribe_to_lease_publisher', 'rsocket.rsocket_base.RSocketBase.send_lease',
+                   'rsocket.frame.LeaseFrame.parse', 'rsocket.datetime_helpers.to_milliseconds'],
+        stubs=['S1', 'S2', 'S3', 'S6 (integer-microsecond clock and durations: VTime/VDelta)', 'S7 SimTransport', 'S8'],
+        assumptions=['wall clock and loop clock advance together (S6)'],
+        technique_extra='; E2 (AST->SMT, exact binary64) for the ttl millisecond arithmetic',
+    )
